@@ -13,13 +13,17 @@ ntw = len(glob.glob(os.path.join(root, "twins", "*.diff")))
 twin_note = open(os.path.join(root, "twins", "STATUS.md")).read().strip() if os.path.exists(os.path.join(root, "twins", "STATUS.md")) else ""
 sec9 = """## 9. Independently seeded changes: which checks catch which
 
-Two rounds of twenty sub-agents (one per property) were each given only the
+Three rounds of twenty sub-agents (one per property) were each given only the
 property record and a scratch git worktree of /repo under /tmp - nothing from
 /verif - and asked for changes that break the property through different
 mechanisms, keep the pinned suite at its baseline and need something specific
 to manifest, each with a demonstration program: three per property in the
-first round, four in the second (which was also handed the notes of the first
-round as "already tried" and a list of kinds of slip to spread over: a moved
+first round, four in the second and four in the third (the later rounds were
+also handed the notes of the earlier ones as "already tried"; the third was
+asked for code one step away from the anchors - helpers, constructors,
+accessors, facades, sibling classes - for changes spread over two sites, for
+not-quite-equivalent modernisations and for boundary cases; the second got a
+list of kinds of slip to spread over: a moved
 check or reset, a condition weakened or strengthened by one conjunct, a value
 cached or shared where it was recomputed or copied, two siblings made to
 disagree, state not updated on an early-return or exception path, a wrong but
@@ -29,7 +33,8 @@ in a fresh scratch worktree (patch applies, suite = 396 passed + the one
 pre-existing failure, demonstration fails with the change and passes without
 it; worktree removed afterwards) and are kept under `/verif/seeded/<ID>-<n>/`
 (`patch.diff`, `demo.py`, `meta.json` with the author's notes on what the
-change needs in order to manifest; n = 1-3 first round, 4-7 second round). One
+change needs in order to manifest; n = 1-3 first round, 4-7 second round, 8-11
+third round). One
 delivery of the second round (`C13-5`) had been swapped with another agent's
 change through the repository-wide `git stash`; the confirmation step caught
 it (the demonstration passed with the patch) and the right diff, which the
@@ -46,7 +51,14 @@ property's check and 40 by none. Every miss was triaged: where the broken
 clause is visible in the shape of the code and is a necessary condition of
 the property, a rule was added or generalised ("round 3" below); where it is a
 value-level fact, or outside what the property quantifies over, it stays
-declined. Now **%d of %d** are reported, %d of them by the check of the very
+declined. Third round: of its 80 changes 14 were reported by the check of
+their own property, 15 only by a neighbouring property's check and 51 by none
+- the rules of "round 4" below came out of that triage. Three repairs (F24,
+F26, F27) changed code that kept seeds patch; `C15-1` and `C20-8` were
+re-derived on the repaired tree and confirmed again, `C20-6`, `C03-9` and
+`C17-1` could no longer be confirmed (their demonstrations relied on the
+repaired behaviour) and were retired to `seeded/retired/` with the reason in
+their `meta.json`. Now **%d of %d** are reported, %d of them by the check of the very
 property the change was seeded for (shared rules are instantiated under both
 ids where the property text covers them). Every kept seed that a check
 reports is also part of that check's self-test in the thorough tier (the patch
@@ -64,6 +76,8 @@ Not reported by the property they were seeded for:
 * `C15-1` - rows of a wrapped line counted as `len // width + 1` instead of
   `ceil(len / width) or 1`: arithmetic (wrong only for exact multiples).
 * `C16-2` - `(k * count) %% width` rewritten as `k * (count %% width)`: arithmetic.
+* `C16-8` - the `+ 1` dropped from the number of section rows a progress bar
+  clears: arithmetic.
 * `C05-7` - `Config.args_parser` stores the default parser it creates, so
   all commands of a config share one parser. Declined: for every *sequence* of
   parses (what C05 quantifies over) a shared `DefaultArgsParser` still behaves
@@ -151,13 +165,67 @@ the handle / stop event the caller joins through), C20-R9 (a single frame
 line is tokenised under a handler for `TokenError`), C20-R10 (lines are cut
 at `\\n` only, never with `splitlines()`).
 
-**Refactor twins (false-alarm test).** Two further rounds of twenty sub-agents,
+Rules added or generalised in round 4 (third seeding round; same standard; a
+rule named "= Cxx-Ry" is that rule instantiated here through `Ctx.borrow` or a
+shared function, with this property's own statement of why it needs it):
+C01-R11 / C02-R9 (the look-ahead for an option value sees whether a value was
+attached, not whether it is empty), C01-R12 (a synthesised argument name is
+tested against the format it will be merged with), C01-R13 (= C07-R2),
+C02-R11 (the required-argument scan is unconditional), C02-R12 / C05-R5 (the
+facade `Command.parse` defaults the mode only when it is None), C03-R1 (the
+name as given is tested before any alias translation; `any(.. in index for
+index in ..)`), C03-R12 (a boolean marker is not compared with None), C03-R13
+/ C06-R8 (the fall-through to the base format is recursive), C03-R14 /
+C05-R6 (= C17-R2), C04-R11 (no `__exit__` returns something truthy), C04-R12
+(= C05-R1), C04-R13 (= C12-R1), C04-R14 (= C17-R8), C04-R15 / C09-R16 (the
+handler is not looked up before the handled return), C05-R7 (= C17-R6 for
+the parser classes), C06-R9 (positional look-up is bounded or handled),
+C06-R10 (alias loops run for every command option), C07-R11 (a converter
+returns its input only under `isinstance` of exactly the target type),
+C07-R12 (the value whose length classifies an alias is the value stored),
+C08-R4 (whitespace is `str.isspace()`, not a literal list), C08-R6 / C09-R13
+/ C17-R11 (= C05-R2), C08-R7 (= C05-R1 for `TokenParser.parse`), C09-R14 (=
+C10-R2), C09-R15 / C11-R9 (every arm of the I/O factory hands the style set
+to its formatter), C09-R17 / C13-R11 (the lenient switch governs the parse
+handed on - found F27), C10-R6 (level flags are distinct single bits, constant
+expressions folded), C10-R7 (gate fields written by constructor and own
+setters only; re-running the constructor on self counts), C10-R8 (the I/O
+facade delegates on every path), C10-R9 (no store before the check in the
+gate setters), C11-R3 (`add_style` registers on every path), C11-R10 /
+C15-R8 (`remove_format` strips with the engine `format` renders with), C12-R4
+(no cache entry bound to an existing list), C12-R10 (every event class
+initialises the propagation state - found F25), C12-R11 (no event class
+overrides the propagation methods), C12-R12 (plain-dict store;
+`get_listener_priority` returns only on a match), C13-R3 (inherited options
+come from the format's base chain), C13-R8 (= C17-R3), C13-R9 (help
+components wrap, write constants, or delegate), C13-R10 (no `str.join` over
+a parameter declared Any), C14-R6 (= C17-R1), C14-R7 (total width = sum of
+column maxima), C14-R8 (None-marked lists are tested with `is None`), C14-R9
+(the table constructor derives nothing from the style), C15-R9 (a field
+computed from the content list is dropped on every change of the list),
+C15-R10 (what is measured is what is recorded), C16-R3 (nothing but reaching
+the maximum goes around the throttle), C16-R9 (`_nomax` variant first),
+C16-R10 (step and percentage are set together), C17-R12 (building the I/O
+writes nothing into the long-lived configuration), C18-R9 (`set` truncates
+before it writes), C18-R10 (the ambiguity test is on every path to the
+acceptance), C18-R11 (the pattern is stored as given), C18-R12 (`max(*seq)`
+only behind `len > 1`), C19-R7 (every normal path of the joining method
+joins; a created thread is started on every path to the body), C19-R8 (the
+spinner index is reduced where it is used), C19-R9 (capability questions go
+to `self._io` after the unwrap), C20-R2 (the ignore pattern is matched
+against the frame's own file name), C20-R4 (simple mode prints
+`str(exception)`, not a component), C20-R9 (every path into the tokenizer
+passes a handler - found F26), C20-R11 (no empty literal from a method whose
+result is subscripted), C20-R12 (no lossy re-encoding).
+
+**Refactor twins (false-alarm test).** Three further rounds of twenty sub-agents,
 again given only a property record and a scratch worktree, each wrote four
 behaviour-preserving changes of different kinds to the code named in the
 property's anchors (rename private names, extract / inline a helper,
 restructure control flow, reorder / split statements, equivalent idioms,
-modernise); the second of these rounds was asked for other functions and
-files than the first. All keep the suite at baseline and are kept as
+modernise); the second and third of these rounds were asked for other
+functions and files than the earlier ones (the third for the code one step
+away from the anchors, which is where the round-4 rules look). All keep the suite at baseline and are kept as
 `/verif/twins/<ID>-<n>.diff` (%d in all). Run against all 20 checks, the
 round-1/2 rules raised an alarm on 26 of the first 80 - every one a defect of
 the *checker* (a rule tied to a name, to one syntactic form, or to one
